@@ -25,12 +25,15 @@ type Clause struct {
 	Params  []string
 	Line    int
 	File    string
+	Assumed bool   // hypothesis: assumed on entry of the unit, not checked at call sites
 	Def     bool   // definitional (introduction rule of a ghost predicate): assumed at call sites, not checked in the body
 	Callee  string // for atcall clauses: short key of the callee
 	Group   string // clause group this clause was spliced from ("" = the function's own clause)
 }
 
 type LoopSpec struct {
+	Before     []*Clause // trace obligations when the loop is entered (events since the previous loop / function entry)
+	Each       []*Clause // trace obligations at every back edge (events of one iteration)
 	Invariants []*Clause
 	Decreases  *Clause
 	Unroll     int
@@ -67,6 +70,12 @@ type slotInfo struct {
 }
 
 var fieldSlots = map[string]slotInfo{}
+
+// ownedFields: "pkg.Struct.field" of slice-typed fields declared exclusively owned.
+var ownedFields = map[string]bool{}
+
+// ifaceSlots: "pkg.Method" of an interface method -> contract key every implementation obeys.
+var ifaceSlots = map[string]string{}
 
 // transGroups: clause groups declared transitive (two-state relations closed under composition and holding for the
 // empty execution); proved by the units lemma_<group>_refl / lemma_<group>_trans of the contracts file.
@@ -121,6 +130,22 @@ func parseContractText(pkg, file string, src []byte) ([]*Contract, error) {
 			fieldSlots[pkg+"."+f[0]] = slotInfo{Key: f[1], Owner: len(f) == 3}
 			continue
 		}
+		if w0, r0 := splitWord(body); w0 == "owned" {
+			// owned Struct.field: the slice held by this field is never copied out of it (checked at every load), so
+			// reslicing it and appending in place cannot be observed through another slice value
+			for _, f := range strings.Fields(r0) {
+				ownedFields[pkg+"."+f] = true
+			}
+			continue
+		}
+		if w0, r0 := splitWord(body); w0 == "ifacecontract" {
+			f := strings.Fields(r0)
+			if len(f) != 2 {
+				return nil, fmt.Errorf("%s:%d: ifacecontract <Method> <contract key>", file, lineNo)
+			}
+			ifaceSlots[pkg+"."+f[0]] = f[1]
+			continue
+		}
 		if w0, r0 := splitWord(body); w0 == "group" {
 			name := strings.Fields(r0)[0]
 			if strings.Contains(r0, " transitive") {
@@ -152,6 +177,11 @@ func parseContractText(pkg, file string, src []byte) ([]*Contract, error) {
 		}
 		word, rest := splitWord(body)
 		switch word {
+		case "assumes":
+			// hypothesis about the input that is assumed on entry and not demanded at call sites (listed in the evidence)
+			c := &Clause{Kind: "requires", Line: lineNo, File: file, Assumed: true}
+			c.Label, c.Props, c.Text = parseLabel(rest)
+			cur.Requires = append(cur.Requires, c)
 		case "requires", "ensures", "ensures-def":
 			c := &Clause{Kind: word, Line: lineNo, File: file}
 			c.Label, c.Props, c.Text = parseLabel(rest)
@@ -194,6 +224,14 @@ func parseContractText(pkg, file string, src []byte) ([]*Contract, error) {
 				c := &Clause{Kind: "invariant", Loop: n, Line: lineNo, File: file}
 				c.Label, c.Props, c.Text = parseLabel(rest3)
 				ls.Invariants = append(ls.Invariants, c)
+			case "before", "each":
+				c := &Clause{Kind: kind, Loop: n, Line: lineNo, File: file}
+				c.Label, c.Props, c.Text = parseLabel(rest3)
+				if kind == "before" {
+					ls.Before = append(ls.Before, c)
+				} else {
+					ls.Each = append(ls.Each, c)
+				}
 			case "decreases":
 				ls.Decreases = &Clause{Kind: "decreases", Loop: n, Text: rest3, Line: lineNo, File: file}
 			case "unroll":
@@ -575,6 +613,10 @@ func genClauseFiles(w *World, contracts map[string]*Contract) (map[string][]byte
 					emit(cl, n, false, true, "bool")
 					n++
 				}
+				for _, cl := range append(append([]*Clause{}, ls.Before...), ls.Each...) {
+					emit(cl, n, false, true, "bool")
+					n++
+				}
 				if ls.Decreases != nil {
 					emit(ls.Decreases, n, false, true, "int")
 					n++
@@ -626,6 +668,8 @@ func attachClauses(w *World, contracts map[string]*Contract) error {
 		all = append(all, c.AtCalls...)
 		for _, ls := range c.Loops {
 			all = append(all, ls.Invariants...)
+			all = append(all, ls.Before...)
+			all = append(all, ls.Each...)
 			if ls.Decreases != nil {
 				all = append(all, ls.Decreases)
 			}
